@@ -70,18 +70,64 @@ type oblResult struct {
 	Txt string
 }
 
+var noBatch = os.Getenv("GOVC_NO_BATCH") != ""
+
 // solveAll discharges every obligation of the given VCs in parallel.
 func solveAll(d *Driver, fvcs []*FuncVC, dir string, timeoutMs int, keepText bool) []*oblResult {
 	var out []*oblResult
 	var mu sync.Mutex
 	var wg sync.WaitGroup
 	sem := make(chan struct{}, 8)
+	// first pass: one incremental solver run per function
+	settled := map[*Obl]SolveResult{}
+	batchMs := 300
+	thorough := timeoutMs > 30000
+	if thorough {
+		batchMs = 1500
+	}
+	if !noBatch {
+		var bwg sync.WaitGroup
+		for _, f := range fvcs {
+			if f.VC == nil {
+				continue
+			}
+			f := f
+			bwg.Add(1)
+			go func() {
+				defer bwg.Done()
+				r := d.batchPass(f, dir, batchMs)
+				mu.Lock()
+				for o, sr := range r {
+					settled[o] = sr
+				}
+				mu.Unlock()
+			}()
+		}
+		bwg.Wait()
+	}
 	for _, f := range fvcs {
 		if f.VC == nil {
 			continue
 		}
 		for _, o := range f.VC.obls {
 			o, f := o, f
+			if sr, ok := settled[o]; ok {
+				// settled: a proof (unsat) of a proof obligation, or a witness (sat) of a cover; anything else is
+				// decided by the individual race below
+				// (quick tier: a cover the incremental run leaves undecided stays undecided - "unknown" on a cover is
+				// not a failure; a cover it refutes is always re-examined by the individual race)
+				if (o.Expect != "sat" && sr.Status == "unsat") || (o.Expect == "sat" && (sr.Status == "sat" || sr.Status == "unknown" && !thorough)) {
+					res := &oblResult{O: o, R: sr, VC: f.VC}
+					if keepText {
+						res.Txt = "; settled in the incremental run of " + f.VC.fn + "; individual query:\n" + d.QueryText(f.VC, o)
+					}
+					solverMu.Lock()
+					solverWins[sr.Solver]++
+					solverMu.Unlock()
+					out = append(out, res)
+					continue
+				}
+			}
 			wg.Add(1)
 			go func() {
 				defer wg.Done()
@@ -96,7 +142,7 @@ func solveAll(d *Driver, fvcs []*FuncVC, dir string, timeoutMs int, keepText boo
 					}
 				}
 				switch o.Kind {
-				case "nil-deref", "nil-arg", "nil-elem", "index", "slice-bounds", "type-assert", "div-zero", "nil-map-write", "make-len", "alloc-bounded", "panic", "lock":
+				case "nil-deref", "nil-arg", "nil-elem", "index", "slice-bounds", "type-assert", "div-zero", "nil-map-write", "make-len", "alloc-bounded", "panic", "lock", "boxed-nil", "nil-capture":
 					if tmo > 8000 {
 						tmo = 8000 // safety obligations are local facts: they discharge at once or not at all
 					}
